@@ -312,6 +312,11 @@ def cases_defaults(tier):
         out.append({"space": "defaults", "what": "model", "expr": expr})
     for fn, fam in (("default_settings", "DailySettings"), ("caltrack_legacy_settings", "DailyLegacySettings")):
         out.append({"space": "defaults", "what": "helper", "fn": fn, "family": fam})
+    # a default-built settings OBJECT of every settings class handed to every model constructor (the classes subclass one another,
+    # so an isinstance dispatch lets the constants of one family into the model of another)
+    for expr in table()["models"]:
+        for fam in table()["families"]:
+            out.append({"space": "defaults", "what": "model_object", "expr": expr, "family": fam})
     return out
 
 
@@ -672,6 +677,27 @@ def run_defaults(case):
         m = {"DailyModel()": lambda: DailyModel(), "DailyModel(model='legacy')": lambda: DailyModel(model="legacy"),
              "BillingModel()": lambda: BillingModel(), "HourlyModel()": lambda: HourlyModel()}[expr]()
         obj, name, tab, want_cls = m.settings, expr + ".settings", t["models"][expr]["table"], t["models"][expr]["class"]
+    elif what == "model_object":
+        expr, fam = case["expr"], case["family"]
+        sobj = sr._classes()[fam]()
+        try:
+            m = {"DailyModel()": lambda: DailyModel(settings=sobj), "DailyModel(model='legacy')": lambda: DailyModel(model="legacy", settings=sobj),
+                 "BillingModel()": lambda: BillingModel(settings=sobj), "HourlyModel()": lambda: HourlyModel(settings=sobj)}[expr]()
+        except Exception as e:  # noqa: refusing a settings object is always admissible
+            return {"behaviour": ["model_object", expr, fam, "rejected:" + type(e).__name__], "violations": [], "stats": {"constructions": 1}}
+        obj = m.settings
+        tab = t["models"][expr]["table"]
+        dump = obj.model_dump(mode="json")
+        # accepted: the model now runs with `obj`; without developer mode its developer-only constants must be the approved ones of
+        # the MODEL's family (hourly: of the class of the object, which the hourly model adopts as it is)
+        if expr == "HourlyModel()":
+            tab = type(obj).__name__ if type(obj).__name__ in t["families"] else tab
+        diffs = _dev_leaf_diffs(tab, _snapshot(obj))
+        if diffs and dump.get("developer_mode") is not True:
+            viol.append({"clause": "lock_bypassed", "key": {"constructor": expr.split("(")[0], "form": "settings_object", "given": fam},
+                         "detail": f"{expr[:-1]}{', ' if not expr.endswith('()') else ''}settings={fam}()) accepted; the model's developer-only "
+                                   f"settings differ from the approved constants of {tab} at {diffs[:6]} with developer_mode={dump.get('developer_mode')!r}"})
+        return {"behaviour": ["model_object", expr, fam, "accepted:" + type(obj).__name__], "violations": viol, "stats": {"constructions": 1}}
     else:
         obj = getattr(ds, case["fn"])()
         name, tab, want_cls = case["fn"] + "()", case["family"], case["family"]
